@@ -14,14 +14,14 @@ module threadStack4(clk,
     input reset;
     output empty;
     output full;
-    input [27:0] senderData;
+    input [77:0] senderData;
     input senderWrite;
     output reg senderAck;
-    output reg [27:0] receiverData;
+    output reg [77:0] receiverData;
     input receiverRead;
     output reg receiverAck;
 
-    reg [27:0] memory[3:0];
+    reg [77:0] memory[3:0];
     reg [2:0] sp;
     reg [2:0] readsp;
     reg [2:0] writesp;
@@ -55,13 +55,13 @@ module threadStack4(clk,
             sp <= 3'd0;
             readsp <= 3'd0;
             writesp <= 3'd0;
-            receiverData <= 28'd0;
+            receiverData <= 78'd0;
             receiverAck <= 1'b0;
             senderAck <= 1'b0;
             sendSM <= 1'd0;
             recvSM <= 1'd0;
             for (i=0;i<4;i=i+1) begin
-                memory[i]<=28'd0;
+                memory[i]<=78'd0;
             end
         end
         else begin
@@ -70,7 +70,7 @@ module threadStack4(clk,
                 case (recvSM)
                 1'd0: begin
                     if (receiverRead && !receiverAck) begin
-                        receiverData[27:0] <= memory[readsp];
+                        receiverData[77:0] <= memory[readsp];
                         if (readsp==3) begin
                             readsp <= 0;
                             sp <=  writesp;
@@ -94,7 +94,7 @@ module threadStack4(clk,
                 case (sendSM)
                 1'd0: begin
                     if (senderWrite && !senderAck) begin
-                        memory[writesp] <= senderData[27:0];
+                        memory[writesp] <= senderData[77:0];
                         if (writesp==3) begin
                             writesp <= 0;
                             sp <= 4 - readsp;
